@@ -832,6 +832,7 @@ func TestVerifC12(t *testing.T) {
 		}
 	})
 	c12SmallWrites(run)
+	c12Reload(run) // before "lazy": uses the package-level RefreshServiceDiscovery(), which must not meet API stubs that are gone
 	c12Lazy(run)
 	c12ReadRetries(run)
 }
